@@ -515,6 +515,7 @@ func (s *c15) Apply(o kit.Op) *kit.Violation {
 		}
 		s.st.Probe("use-of-zeroed-key")
 		_, _ = h.real.Child(uint32(o.Arg(0)))
+		h.real.SetNet(c15Nets[int(o.Arg(0)>>31)&1].p) // a mutating call on a zeroed key
 		_, _ = h.real.Neuter()
 		_ = h.real.IsPrivate()
 		_ = h.real.Depth()
